@@ -56,6 +56,7 @@ class Monitor:
         self.key, self.hist_id = key, hist_id
         self.ever = {}
         self.hist = []
+        self.seen_bad = set()
         ids = [k for rows in scan.values() for r in rows for k in r["ids"]]
         rng = random.Random(f"ever:{key}:{hist_id}:{self.ctx.seed}")
         for k in (ids if len(ids) < 400 else rng.sample(ids, 400)):
@@ -106,6 +107,9 @@ class Monitor:
                 self.report(kind, x, i, rec, f"type search for {x}: {len(got - want)} stale, {len(want - got)} missing")
 
     def report(self, kind, what, i, rec, msg):
+        if (kind, what) in self.seen_bad:   # a stale entry persists; report it at the step that caused it
+            return
+        self.seen_bad.add((kind, what))
         op = S.describe(rec.step) if rec is not None else {"op": "load"}
         rk = op.get("relation", "-").split("[")[-1].rstrip("]") if "relation" in op else "-"
         sig = f"{kind}|{op['op']}|{rk}"
@@ -191,17 +195,17 @@ def one_history(ctx: Ctx, out: Outcome, key: str, h: int, nsteps: int):
     model = S.run_history(ctx, out, key, nsteps, obs, hist_id=h)
     # make sure a namespace-adding creation happened before the save in some histories
     if h % 2 == 0:
+        import objops
+        before = ol.raw_scan(model._loader)
         try:
-            import objops
-            before = ol.raw_scan(model._loader)
-            mod = model.la.requirement_modules.create(name="verif-module")
-            after = ol.raw_scan(model._loader)
-            rec = S.StepRecord(10**6 - 1, objops.Step("create", None, {"kw": {"name": "verif-module"}}, lambda: None), "ok", before, after)
-            tie.apply((key, "reqmod"), S.diff_ops(S.scan_rows(before), S.scan_rows(after), tie.frag_index))
-            mon.step(rec, model)
-            del mod
-        except Exception:  # noqa: BLE001
-            pass
+            model.la.requirement_modules.create(name="verif-module")
+            outcome = "ok"
+        except Exception as e:  # noqa: BLE001  (e.g. the history deleted the logical architecture)
+            outcome = type(e).__name__
+        after = ol.raw_scan(model._loader)
+        rec = S.StepRecord(10**6 - 1, objops.Step("create", None, {"kw": {"name": "verif-module"}}, lambda: None), outcome, before, after)
+        tie.apply((key, "reqmod"), S.diff_ops(S.scan_rows(before), S.scan_rows(after), tie.frag_index))
+        mon.step(rec, model)
     save_and_check(ctx, out, model, mon, tie, key)
     import os
     if os.environ.get("VERIF_NO_MODEL") != "1":
